@@ -11,9 +11,31 @@ TOL = {
 }
 
 
+class Scale(float):
+    """A tolerance multiplier that also carries the lowest float precision the model computes in (`floor`): a float64
+    output that was computed through float32 values (Cast f32->f64 at the end) is only as precise as float32."""
+
+    def __new__(cls, v, floor=None):
+        o = float.__new__(cls, v)
+        o.floor = floor
+        return o
+
+    def __mul__(self, k):
+        return Scale(float(self) * float(k), self.floor)
+
+    __rmul__ = __mul__
+
+
+_ORDER = ["float64", "float32", "bfloat16", "float16"]
+
+
 def tol_for(dtype, scale=1.0):
-    r, a = TOL.get(str(dtype), (0.0, 0.0))
-    return r * scale, a * scale
+    name = str(dtype)
+    floor = getattr(scale, "floor", None)
+    if floor in _ORDER and name in _ORDER and _ORDER.index(floor) > _ORDER.index(name):
+        name = floor
+    r, a = TOL.get(name, (0.0, 0.0))
+    return r * float(scale), a * float(scale)
 
 
 def compare_value(a, b, scale=1.0, check_dtype=True, rtol=None, atol=None):
